@@ -20,7 +20,7 @@ func siteR(kind, name, typ, pkg string) *jg.Site {
 }
 
 var c02ExprNames = []string{"implicit", "this-call", "field-imported", "field-project", "param", "local", "static", "chained",
-	"nested-arg", "new", "new-with-arg-call", "lambda", "this-field", "param-project", "new-generic", "new-qualified", "new-then-call", "new-in-lambda", "new-as-argument", "local-of-declared-type-initialised-with-other-new", "field-of-project-interface-via-on-demand-import", "final-local", "parameter-used-after-being-passed-next-to-a-creation"}
+	"nested-arg", "new", "new-with-arg-call", "lambda", "this-field", "param-project", "new-generic", "new-qualified", "new-then-call", "new-in-lambda", "new-as-argument", "local-of-declared-type-initialised-with-other-new", "field-of-project-interface-via-on-demand-import", "final-local", "parameter-used-after-being-passed-next-to-a-creation", "parameter-used-after-being-passed-to-a-constructor-next-to-a-creation"}
 
 // c02Expr returns (prefix statements needed before, expression fragments).
 func c02Expr(kind string, uniq string) (pre []jg.Stmt, e []jg.Frag) {
@@ -37,6 +37,10 @@ func c02Expr(kind string, uniq string) (pre []jg.Stmt, e []jg.Frag) {
 	case "parameter-used-after-being-passed-next-to-a-creation":
 		// `doIt3(pr, new Helper())` must not change what `pr` is
 		pre = []jg.Stmt{jg.St(jg.S(siteR("call", "doIt3", "Svc", "app")), jg.T("(pr, new "), jg.S(site("new", "Helper")), jg.T("());"))}
+		e = []jg.Frag{jg.T("pr."), jg.S(siteR("call", "find", "Repo", "lib")), jg.T("()")}
+	case "parameter-used-after-being-passed-to-a-constructor-next-to-a-creation":
+		// the same inside the argument list of a constructor call
+		pre = []jg.Stmt{jg.St(jg.T("Object w"+uniq+" = new "), jg.S(site("new", "Wrapper")), jg.T("(pr, new "), jg.S(site("new", "Helper")), jg.T("());"))}
 		e = []jg.Frag{jg.T("pr."), jg.S(siteR("call", "find", "Repo", "lib")), jg.T("()")}
 	case "this-call":
 		e = []jg.Frag{jg.T("this."), jg.S(site("call", "doIt")), jg.T("()")}
